@@ -447,7 +447,8 @@ class PlanJoinTablesQuery:
                 # all order column be from this table
                 for col in query_in.order_by:
                     table_info = self.get_table_for_column(col.field)
-                    if table_info is None or table_info.table != item.table:
+                    # this very member of the join: a table of another database with the same name prints the same
+                    if table_info is None or table_info is not item:
                         order_by = False
                         break
                     col = copy.deepcopy(col)
